@@ -2,10 +2,15 @@
 # Runs every seeded change under /verif/seeded against the check of its property (scratch worktree, never /repo) and
 # writes /verif/seeded/RESULTS.tsv: name, check, exit code, first violation signature.
 cd /verif
+# SHARD=k NSHARDS=n runs every n-th seeded change into RESULTS.tsv.part<k> (merge: sort the parts into RESULTS.tsv)
 OUT=/verif/seeded/RESULTS.tsv
+[ -n "$NSHARDS" ] && OUT=$OUT.part$SHARD
 : > $OUT.tmp
+i=0
 for d in seeded/C*-*/; do
   n=$(basename $d); id=${n%%-*}
+  i=$((i+1))
+  [ -n "$NSHARDS" ] && [ $((i % NSHARDS)) -ne "$SHARD" ] && continue
   extra=""
   [ "$n" = "C14-2" ] && extra="C10"
   [ "$n" = "C08-5" ] && extra="C16"
